@@ -26,22 +26,28 @@ func (r *Run) c11GraphLookups() {
 		if !ok {
 			continue
 		}
-		ct := tm.Of(iff.Cond)
-		if ct.Op != "bin" || ct.Name != "==" {
+		if len(b.Succs) != 2 || b.Succs[0] == b.Succs[1] {
 			continue
 		}
 		l := InnermostLoop(loops, b)
 		if l == nil || !loopRangesOver(tm, l, "recv.allNodes") {
 			continue
 		}
-		a, c := ct.Args[0], ct.Args[1]
-		if a.Op == "param" {
-			a, c = c, a
-		}
-		if a.Op == "call" && strings.HasSuffix(a.Name, "NNode.ID") && a.Args[0].String() == "recv.allNodes[*]" {
-			for _, idx := range []int{1, 2} {
-				if isParamIdx(c, idx) {
-					tests[idx] = iff
+		// the comparison of the node's id with a parameter, on whichever outcome it means "equal"
+		// (`np.ID() == uid`, `uid == np.ID()`, `!(np.ID() != uid)` ...)
+		for _, outcome := range []bool{true, false} {
+			a, c, isEq := eqCond(tm, Guard{iff.Cond, outcome, b})
+			if !isEq {
+				continue
+			}
+			if a.Op == "param" {
+				a, c = c, a
+			}
+			if a.Op == "call" && strings.HasSuffix(a.Name, "NNode.ID") && a.Args[0].String() == "recv.allNodes[*]" {
+				for _, idx := range []int{1, 2} {
+					if isParamIdx(c, idx) {
+						tests[idx] = iff
+					}
 				}
 			}
 		}
@@ -277,6 +283,15 @@ func (r *Run) c11GraphLookups() {
 		}
 		r.Check(ifMatch == nil, "graph."+name+".control-nodes.on-match", pf, "after a successful match the iteration does not end before the control node is listed",
 			name+" can finish the iteration for a control node whose "+side+" link matched the id without listing that control node", ifMatch...)
+		// (once) after the control node was listed the iteration ends without listing it again (a node wired to the
+		// module by two links is still one neighbour)
+		var twice []string
+		for _, a := range apps {
+			if w := FindPath(p, PathQuery{Fn: fn, StartAfter: a, Target: isApp, AvoidEdge: endsIteration, Explored: &explored}); w != nil {
+				twice = w
+			}
+		}
+		r.Check(twice == nil, "graph."+name+".control-nodes.once", pf, "a control node is listed at most once", name+" can list the same control node more than once (the scan of its "+side+" links goes on after a match)", twice...)
 		// (scan) an iteration ends only after a match or after the scan of the control node's links was exhausted:
 		// no control node is skipped, and no link of it is left unlooked-at, on account of anything else
 		var skipped []string
